@@ -8,7 +8,7 @@ from __future__ import annotations
 import numpy as np
 import torch
 
-from mc.util import V, call
+from mc.util import V, call, rnd
 from mc.props import _interp_common as ic
 
 ID = "C15"
@@ -70,7 +70,7 @@ def cases(tier, seed):
         ns = tuple(range(2, 14)) + (16, 25, 40)
     for n in ns:
         for (m, bc) in MB:
-            for g in ("uniform", "cheb", "geom"):
+            for g in ("uniform", "cheb", "geom", "nearuni"):
                 if n == 2 and g != "uniform":
                     continue            # all grids coincide for two points
                 for (rank, dim) in RANKDIMS:
@@ -89,10 +89,24 @@ def cases(tier, seed):
                                     c3 = _cfg(m, bc, g, n, rank, dim, kd, xg, dt)
                                     c3["prior"] = prior
                                     out.append(c3)
+                            if rank <= 2 and xg == 0 and dt == "float64" and kd == 0 and n in (3, 5, 7, 12):
+                                # the grid in other units: spacings of 1e-9 .. 1e-10 and of 1e5 .. 1e6
+                                for sc in (2.0 ** -30, 2.0 ** 20):
+                                    c4 = _cfg(m, bc, g, n, rank, dim, kd, xg, dt)
+                                    c4["xscale"] = sc
+                                    out.append(c4)
                             if rank >= 2 and xg == 0 and dt == "float64" and g == "uniform" and n in (3, 5, 6):
                                 c1 = _cfg(m, bc, g, n, rank, dim, kd, xg, dt)
                                 c1["ones"] = 1
                                 out.append(c1)
+    # many rows x many samples: temporaries of 2^22 .. 2^24 elements (size thresholds in the implementation)
+    for (m, bc) in MB:
+        for (rows, n) in ((300, 128), (70, 256), (4200, 33)) if tier == "quick" else \
+                ((300, 128), (70, 256), (4200, 33), (1100, 64), (90000, 7)):
+            for dim in (0, -1):
+                c5 = _cfg(m, bc, "cheb", n, 2, dim, 0, 0, "float64")
+                c5.update({"large": 1, "rows": rows})
+                out.append(c5)
     if tier != "quick":
         for plane in (1, 2, 3):
             for n in ns:
@@ -179,8 +193,68 @@ def references(xs, method, bc, basis):
 
 # ------------------------------------------------------------------ one case
 
+def run_large(cfg):
+    """many batch rows x many samples (code paths selected by the size of the temporary product): all rows at
+    once must equal the same rows handed over 37 at a time, the last cumulative value must equal integrate, and
+    trapz must equal the closed-form cumulative trapezoid"""
+    from xitorch.integrate import SQuad
+    method, bc, n, rows = cfg["method"], cfg["bc"], cfg["nx"], cfg["rows"]
+    x_t, xs = ic.grid(cfg["grid"], n, torch.float64, 0, 0)
+    kw = {"method": method}
+    if method == "cspline" and bc != "default":
+        kw["bc_type"] = bc
+    o = call(SQuad, x_t.clone(), **kw)
+    if o.exc is not None:
+        return {"viol": [V("exception:%s" % o.exc_sig, {"stage": "init"}, stage="init")], "obs": {}, "status": "raised"}
+    sq = o.value
+    r = torch.arange(rows, dtype=torch.float64).unsqueeze(-1)
+    y = torch.cos((0.5 + 0.003 * r) * x_t) + 0.1 * (1.0 + 0.01 * r) * x_t * x_t       # (rows, n), all rows distinct
+    if cfg["dim"] == 0:
+        yy, dim = y.t().contiguous(), 0
+    else:
+        yy, dim = y, -1
+    viol = []
+    oc = call(sq.cumsum, yy, dim=dim)
+    oi = call(sq.integrate, yy, dim=dim)
+    if oc.exc is not None or oi.exc is not None:
+        e = oc if oc.exc is not None else oi
+        return {"viol": [V("exception:%s" % e.exc_sig, {"stage": "call"}, stage="call")], "obs": {}, "status": "raised"}
+    cum = oc.value if dim == -1 else oc.value.t()
+    integ = oi.value
+    if tuple(cum.shape) != (rows, n) or tuple(integ.shape) != (rows,):
+        return {"viol": [V("shape-mismatch:large", {"cumsum": list(oc.value.shape), "integrate": list(integ.shape)})],
+                "obs": {}, "status": "violation"}
+    parts = []
+    for k in range(0, rows, 37):
+        blk = y[k:k + 37]
+        ob = call(sq.cumsum, blk.t().contiguous() if dim == 0 else blk, dim=dim)
+        if ob.exc is not None:
+            return {"viol": [V("exception:%s" % ob.exc_sig, {"stage": "call-block"}, stage="call")], "obs": {},
+                    "status": "raised"}
+        parts.append(ob.value if dim == -1 else ob.value.t())
+    ref = torch.cat(parts, dim=0)
+    scale = max(1.0, float(ref.abs().max()))
+    e_blk = float((cum - ref).abs().max()) / scale
+    e_last = float((cum[:, -1] - integ).abs().max()) / scale
+    nzero = int((cum[:, 1:].abs().sum(-1) == 0).sum())
+    if not e_blk <= 1e-11:
+        viol.append(V("large-batch-differs-from-the-same-rows-in-blocks", {"relerr": e_blk, "all_zero_rows": nzero,
+                                                                           "rows": rows, "nx": n}, op="cumsum"))
+    if not e_last <= 1e-10:
+        viol.append(V("integrate-differs-from-last-cumsum", {"relerr": e_last, "rows": rows, "nx": n}, op="integrate"))
+    if method == "trapz":
+        exp = ref_trapz(xs, y.numpy().T.copy()).T
+        e_ref = float(np.abs(cum.numpy() - exp).max()) / scale
+        if not e_ref <= 1e-11:
+            viol.append(V("cumsum-mismatch", {"relerr": e_ref, "rows": rows, "nx": n}, op="cumsum"))
+    return {"viol": viol, "obs": {"e_blk": rnd(e_blk, 2), "e_last": rnd(e_last, 2)}, "n": 3 + len(parts),
+            "status": "violation" if viol else "ok"}
+
+
 def run_case(cfg):
     from xitorch.integrate import SQuad
+    if cfg.get("large"):
+        return run_large(cfg)
     method, bc, n = cfg["method"], cfg["bc"], cfg["nx"]
     rank, dim, keepdim = cfg["rank"], cfg["dim"], bool(cfg["keepdim"])
     dtn = cfg["dtype"]
@@ -202,6 +276,11 @@ def run_case(cfg):
 
     x_t, xs = ic.grid(cfg["grid"], n, dtype, seed, plane)
     tol = tolerance(dtn, xs)
+    # the same grid in other units (exact scaling by a power of two, e.g. nanometres in metres): integrals are
+    # covariant, so the results divided by the factor are judged against the references of the unscaled grid
+    xscale = float(cfg.get("xscale", 1.0))
+    if xscale != 1.0:
+        x_t = x_t * xscale
     periodic_y = method == "cspline" and bc == "periodic"
     basis = ic.basis_np(n, periodic_y)
     nb = basis.shape[1]
@@ -336,7 +415,7 @@ def run_case(cfg):
                             op=op)
                 elif val.dtype != dtype:
                     add("dtype-mismatch:%s" % op, {"got": str(val.dtype)}, op=op)
-                v64 = val.detach().to(torch.float64)
+                v64 = val.detach().to(torch.float64) / xscale
                 if op == "cumsum":
                     flat = unlayout(v64, n).numpy()
                 else:
